@@ -351,7 +351,34 @@ func (in *Interp) orSlots(s []*Term) *Term {
 	case 2:
 		return in.ts.Or(s[0], s[1])
 	}
-	return in.ts.Or(s...)
+	// re-join of a multi-way branch: fold pairs (X∧c) ∨ (X∧¬c) = X until nothing changes, so that the
+	// guard after `if / else if / else` is the guard before it again
+	xs := make([]*Term, 0, len(s))
+	for _, t := range s {
+		if !t.IsFalse() {
+			xs = append(xs, t)
+		}
+	}
+	for changed := true; changed && len(xs) > 1 && len(xs) <= 12; {
+		changed = false
+	outer:
+		for i := 0; i < len(xs); i++ {
+			for j := i + 1; j < len(xs); j++ {
+				if xs[i] == xs[j] {
+					xs = append(xs[:j], xs[j+1:]...)
+					changed = true
+					break outer
+				}
+				if r := in.ts.diamond(xs[i], xs[j]); r != nil {
+					xs[i] = r
+					xs = append(xs[:j], xs[j+1:]...)
+					changed = true
+					break outer
+				}
+			}
+		}
+	}
+	return in.ts.Or(xs...)
 }
 
 func (in *Interp) skipBlock(f *Frame, b *ssa.BasicBlock) {
